@@ -1,6 +1,7 @@
 import B6.Lemmas.Validate
 import B6.Lemmas.ValidateEdits
 import B6.Lemmas.Validator
+import B6.Lemmas.ValidatorUniq
 /-!
 # C37 — Every feature in a world is valid
 
@@ -22,7 +23,7 @@ S2's verdicts on a closed loop (valid? counter-clockwise?) are an `Oracle`.
 * `validator_emits_valid`    `compact.Validator` emits only valid paths and areas over emitted loops, in any order
 -/
 namespace B6.Props.C37
-open B6.Model.Validate B6.Lemmas.Validate B6.Lemmas.ValidateEdits B6.Lemmas.Validator
+open B6.Model.Validate B6.Lemmas.Validate B6.Lemmas.ValidateEdits B6.Lemmas.Validator B6.Lemmas.ValidatorUniq
 
 theorem validatePath_ok {O : Oracle} {w : World} {refs : List Id} (h : validatePath O w refs = .ok) :
     2 ≤ refs.length ∧ ∃ slots, pathSlots w refs = some slots ∧
@@ -262,23 +263,37 @@ def edits_preserve_valid_statement : Prop :=
 
 /-- **edits_preserve_valid_partial.** If every feature of `w` is valid and `AddFeature(f)` is accepted,
 every feature of the resulting world is valid — for all worlds, features and oracles — given that a
-replacement keeps the kind of the feature it replaces (IDs carry the feature type) and that the
-referrer set `AddFeature` re-validates is closed under "references a member" (an executable check on
-`referrers`; what C15's `find_refs_spec` guarantees for the real query). -/
+replacement keeps the kind of the feature it replaces (IDs carry the feature type). The referrers
+that `AddFeature` re-validates are the set C15's `find_refs_spec` guarantees: closed under
+"references a member" (the model's `referrers` answers only with a set it has found closed). -/
 theorem edits_preserve_valid_partial (O : Oracle) (w w' : World) (f : Feat) (hu : Uniq w)
     (hv : allValid O w = true)
     (hk : ∀ g ∈ w, g.id = f.id → sameCtor g f = true)
-    (hcl : closedSet w f.id (referrers w f.id) = true)
     (h : addFeature O w f = .ok w') : allValid O w' = true := by
   simp only [allValid, List.all_eq_true] at hv ⊢
-  exact edits_valid O w w' f hu hv hk hcl h
+  exact edits_valid O w w' f hu hv hk h
+
+/-- **overlay_edits_preserve_valid_partial.** The same for `MutableOverlayWorld.AddFeature`, seen through
+the layered view `w`: the referrers `R` it re-validates come from the world's own `FindReferences`; if
+that set is closed under "references a member" in `w` — which C15's `overlay_history_query` gives for
+every edit history: `R` is exactly the set of transitive referrers — an accepted edit keeps every
+feature of the layered world valid. -/
+theorem overlay_edits_preserve_valid_partial (O : Oracle) (w w' : World) (f : Feat) (R : List Id) (hu : Uniq w)
+    (hv : allValid O w = true)
+    (hk : ∀ g ∈ w, g.id = f.id → sameCtor g f = true)
+    (hcl : closedSet w f.id R = true)
+    (h : addFeatureWith O w f R = .ok w') : allValid O w' = true := by
+  simp only [allValid, List.all_eq_true] at hv ⊢
+  exact edits_valid_with O w w' f R hu hv hk hcl h
 
 /-- non-vacuity: moving point 2 under a closed path and its area is accepted and keeps the world valid -/
 def editW : World := [pt 1 1, pt 2 2, pt 3 3, ⟨(1, 10), .path [(0, 1), (0, 2), (0, 3), (0, 1)]⟩, ⟨(2, 20), .area [[(1, 10)]]⟩]
-example : Uniq editW ∧ allValid niceOracle editW = true ∧ closedSet editW (0, 2) (referrers editW (0, 2)) = true ∧
+example : Uniq editW ∧ allValid niceOracle editW = true ∧ referrers editW (0, 2) = some [(1, 10), (2, 20)] ∧
     (∀ g ∈ editW, g.id = (pt 2 26).id → sameCtor g (pt 2 26) = true) ∧
-    (match addFeature niceOracle editW (pt 2 26) with | .ok _ => true | _ => false) = true := by
-  refine ⟨by unfold Uniq; decide, by decide, by decide, by decide, by decide⟩
+    (match addFeature niceOracle editW (pt 2 26) with | .ok _ => true | _ => false) = true ∧
+    closedSet editW (0, 2) [(1, 10), (2, 20)] = true ∧
+    (match addFeatureWith niceOracle editW (pt 2 26) [(1, 10), (2, 20)] with | .ok _ => true | _ => false) = true := by
+  refine ⟨by unfold Uniq; decide, by decide, by decide, by decide, by decide, by decide, by decide⟩
 
 /-- **validator_emits_valid.** `compact.Validator`, fed the paths and areas of a source in ANY order:
 every path it emits is valid with respect to the point locations, and every area it emits names only
@@ -295,6 +310,12 @@ theorem validator_emits_valid (O : Oracle) (pts : World) (src : List Feat)
     (by intro id hid; simp [Validator.state] at hid) hE hc
   rw [List.nil_append] at this
   exact this
+
+/-- **validator_emits_once.** When the IDs of the stream are distinct, no ID is emitted twice (an area
+leaves the queue when it is emitted; a path is emitted by its own `ValidatePath` call only). -/
+theorem validator_emits_once (O : Oracle) (pts : World) (src : List Feat) (hu : (src.map (·.id)).Nodup) :
+    ((Validator.run O ⟨pts, [], []⟩ src).2.map (·.id)).Nodup :=
+  run_nodup O pts src hu
 
 /-- non-vacuity: an area fed before its path is emitted once the path has been seen -/
 example : (Validator.run niceOracle ⟨[pt 1 1, pt 2 2, pt 3 3], [], []⟩
